@@ -9,6 +9,7 @@ import SquidModel.Properties.C37
 #print axioms SquidModel.C37.encoding_ignores_trailing_octets
 #print axioms SquidModel.C37.header_roundtrip
 #print axioms SquidModel.C37.query_roundtrip
+#print axioms SquidModel.C37.query_roundtrip_text
 #print axioms SquidModel.C37.deep_chain_counterexample
 #print axioms SquidModel.C37.pointer_to_root_counterexample
 #print axioms SquidModel.C37.edns_query_memcpy_null_counterexample
